@@ -27,6 +27,7 @@ import (
 	"fmt"
 	"go/ast"
 	"go/token"
+	"go/types"
 	"strings"
 
 	"golang.org/x/tools/go/packages"
@@ -255,8 +256,77 @@ func c14hdrFindEofIf(list []ast.Stmt, p *packages.Package) (*ast.IfStmt, bool) {
 	return found, nothing
 }
 
+// c14hdrCtxFacts (round 6): how the reading loop of a Scan hands on a cancelled context.  Every `if` of the function whose
+// condition (or init `v := ctx.Err()`) asks `ctx.Err() != nil` / `v != nil` must have the body `return nil, X`;
+// X = `ctx.Err()`, the init's variable, or a github.com/pkg/errors wrapper of one of them is BARE (pkg/errors.Cause, hence
+// core/engine's errutil.IsCtxError, finds the context's own error); anything else (fmt.Errorf / xerrors.Errorf with %w …)
+// is not.  Result: (number of such checks, all bare).
+func c14hdrCtxFacts(x *c14hdrScanCtx, fd *ast.FuncDecl) (int, bool) {
+	n, bare := 0, true
+	ast.Inspect(fd.Body, func(nd ast.Node) bool {
+		ifs, ok := nd.(*ast.IfStmt)
+		if !ok {
+			return true
+		}
+		alias := ""
+		if as, ok := ifs.Init.(*ast.AssignStmt); ok && len(as.Lhs) == 1 && len(as.Rhs) == 1 && c14hdrSrcText(x.p, as.Rhs[0]) == "ctx.Err()" {
+			alias = c14hdrSrcText(x.p, as.Lhs[0])
+		}
+		cond := strings.ReplaceAll(c14hdrSrcText(x.p, ifs.Cond), " ", "")
+		if !(cond == "ctx.Err()!=nil" || cond == "nil!=ctx.Err()" || (alias != "" && (cond == alias+"!=nil" || cond == "nil!="+alias))) {
+			if strings.Contains(cond, "ctx.Err()") || strings.Contains(cond, "ctx.Done()") {
+				x.fail(ifs, "a context check of another shape: %s", cond)
+			}
+			return true
+		}
+		n++
+		if len(ifs.Body.List) != 1 || ifs.Else != nil {
+			x.fail(ifs, "the context check does not just return")
+			return true
+		}
+		ret, ok := ifs.Body.List[0].(*ast.ReturnStmt)
+		if !ok || len(ret.Results) != 2 || c14hdrSrcText(x.p, ret.Results[0]) != "nil" {
+			x.fail(ifs, "the context check does not return (nil, error)")
+			return true
+		}
+		var isBare func(e ast.Expr) bool
+		isBare = func(e ast.Expr) bool {
+			txt := c14hdrSrcText(x.p, e)
+			if txt == "ctx.Err()" || (alias != "" && txt == alias) || txt == "context.Canceled" {
+				return true
+			}
+			if c, ok := e.(*ast.CallExpr); ok && len(c.Args) >= 1 {
+				if sel, ok := c.Fun.(*ast.SelectorExpr); ok {
+					if id, ok := sel.X.(*ast.Ident); ok {
+						if pn, ok := x.p.TypesInfo.Uses[id].(*types.PkgName); ok && pn.Imported().Path() == "github.com/pkg/errors" {
+							switch sel.Sel.Name {
+							case "Wrap", "Wrapf", "WithMessage", "WithMessagef", "WithStack":
+								return isBare(c.Args[0])
+							}
+						}
+					}
+				}
+			}
+			return false
+		}
+		if !isBare(ret.Results[1]) {
+			bare = false
+		}
+		return true
+	})
+	return n, bare
+}
+
 func c14hdrScan(t *tr, p *packages.Package) string {
 	var b strings.Builder
+	ctxFacts := func(prefix string, x *c14hdrScanCtx, fd *ast.FuncDecl) {
+		n, bare := c14hdrCtxFacts(x, fd)
+		if !x.ok {
+			return
+		}
+		fmt.Fprintf(&b, "/-- regenerated from %s (round 6): the reading loop looks at the context (`if ctx.Err() != nil { return nil, … }`, %d place(s)) -/\ndef %sScanChecksCtx : Bool := %v\n\n", x.ctx, n, prefix, n > 0)
+		fmt.Fprintf(&b, "/-- regenerated from %s (round 6): every such check returns the context's own error (ctx.Err() itself or a pkg/errors wrapper of it: errutil.IsCtxError recognises it), not one wrapped with %%w -/\ndef %sScanCtxBare : Bool := %v\n\n", x.ctx, prefix, bare)
+	}
 	emit := func(prefix, file, where string, x *c14hdrScanCtx, limit, body string) {
 		if !x.ok {
 			return
@@ -283,6 +353,7 @@ func c14hdrScan(t *tr, p *packages.Package) string {
 				x.fail(fd, "`if !d.scanner.Scan() { if d.scanner.Err() == nil { … } }` not found")
 			} else {
 				emit("uri", "components/providers/http/decoders/uri.go", "the block under `if !d.scanner.Scan() { if d.scanner.Err() == nil {`", x, lim, x.eofBlock(inner.Body.List))
+				ctxFacts("uri", x, fd)
 			}
 		}
 	}
@@ -300,6 +371,7 @@ func c14hdrScan(t *tr, p *packages.Package) string {
 			} else {
 				emit("raw", "components/providers/http/decoders/raw.go", "the block under `if "+c14hdrSrcText(p, eof.Cond)+" {`", x, lim, x.eofBlock(eof.Body.List))
 				if x.ok {
+					ctxFacts("raw", x, fd)
 					fmt.Fprintf(&b, "/-- regenerated from raw.go Scan: the end-of-file block is entered only when ReadString returned io.EOF AND no data (a last line without its newline is still decoded); false = on io.EOF alone -/\ndef rawEofNeedsNoData : Bool := %v\n\n", nothingRead)
 				}
 			}
@@ -326,6 +398,7 @@ func c14hdrScan(t *tr, p *packages.Package) string {
 			} else {
 				rounds := c14hdrSrcText(p, outer.Cond)
 				emit("uripost", "components/providers/http/decoders/uripost.go", "what follows the reading loop in the body of the outer loop (`"+rounds+"`)", x, lim, x.eofBlock(outer.Body.List[1:]))
+				ctxFacts("uripost", x, fd)
 			}
 		}
 	}
@@ -361,6 +434,7 @@ func c14hdrScan(t *tr, p *packages.Package) string {
 					x.fail(loop, "`if err != nil { … } else { … }` after Decode not found")
 				} else if x.ok {
 					emit("json", "components/providers/http/decoders/jsonline.go", "what follows the decode step when it hit EOF", x, lim, x.eofBlock(loop.Body.List[at+1:]))
+					ctxFacts("json", x, fd)
 					if x.ok {
 						fmt.Fprintf(&b, "/-- regenerated from jsonline.go Scan: the check at the top of every round of the loop (true ⇒ ErrPassLimit) -/\ndef jsonTopCheck (passes passNum : Nat) : Bool := decide %s\n\n", c)
 					}
